@@ -661,6 +661,11 @@ FN_NAMES = sorted(BY_FN)
 FOCUS = ["containers.Note", "containers.Note", "scales.Diatonic", "scales.Dorian", "scales.Major", "containers.NoteContainer", "keys.get_notes", "chords.triads", "chords.sevenths", "progressions.to_chords", "progressions.substitute", "intervals.invert", "chords.tonic", "chords.I", "chords.triad", "chords.seventh", "keys.get_key_signature_accidentals", "chords.from_shorthand", "scales.Major", "chords.determine"]
 
 
+BY_FN_EARLY = collections.defaultdict(list)
+for _i, _e in enumerate(CATALOG):
+    BY_FN_EARLY[_e["mod"] + "." + _e["fn"]].append(_i)
+
+
 def _groups():
     """entries of one function that share the leading note/key of their first
     string argument: 'related but different arguments' (a memo with a wrong key
@@ -678,6 +683,19 @@ def _groups():
         g[(e["mod"] + "." + e["fn"], lead)].append(i)
     groups = [v for v in g.values() if len(v) >= 2]
     weights = [len(v) ** 2 for v in groups]
+    # explicit twins: argument tuples a sloppy memo key would confuse
+    tw = collections.defaultdict(list)
+    for i, e in enumerate(CATALOG):
+        if "twin" in e:
+            tw[e["twin"]].append(i)
+    for v in tw.values():
+        groups.append(v)
+        weights.append(40)
+    # one whole function at a time, any arguments
+    for fn, v in BY_FN_EARLY.items():
+        if len(v) >= 8:
+            groups.append(v)
+            weights.append(len(v))
     return groups, weights
 
 
